@@ -16,8 +16,9 @@ RULE = ("seeded histories: terminal 1-4 rows x 1-5 columns, 1-6 steps of render 
         "dropped), FSArray / list-of-FmtStr / list-of-str containers, hide_cursor on/off, every cursor position; "
         "exhaustive: every ordered pair (previous array, next array) of arrays over a small cell alphabet "
         "(symbols x colours) on 2x2 and 2x3 terminals incl. arrays one row/column too large. "
-        "Each history: the real writes are tokenised (capability strings regenerated from blessed) and must equal the "
-        "model's operations; the reference terminal, the Lean terminal spec and pyte must agree on the screen. "
+        "Each history: the real output is read by the reference terminal and the screen/cursor/scrollback after every step "
+        "must equal what the model's operations give on the Lean terminal spec (property-level tie); that the operations "
+        "themselves are the model's is a representation-level tie; pyte is a second opinion. "
         "non-trivial = distinct histories with at least two steps or a non-empty array")
 ASSUMPTIONS = ["rows are made of printable single-column characters: no control character (C0, DEL, C1 - so no ESC/0x9b, "
                "newline, tab), no wide or combining character (wide characters are C10's); a row containing e.g. a newline "
@@ -55,19 +56,27 @@ class FakeFullscreen(FullscreenWindow):
 _pool = {}
 
 
+PRIVATE = ("_last_lines_by_row", "_last_rendered_width", "_last_rendered_height")
+
+
 def fresh_window(hide):
-    """A window in its just-constructed state.  Building blessed.Terminal costs 3 ms, so one object is re-used and
-    put back into the constructor's state; every 200th call really constructs one and compares the two states."""
+    """A window in its just-constructed state.  Building blessed.Terminal costs 3 ms, so one object is re-used and put
+    back into the constructor's state - which needs the (private) names of the render cache.  If a refactor renamed
+    them the pool is simply not used (a new window per history): the verdict never depends on those names."""
     _pool["n"] = _pool.get("n", 0) + 1
-    if "win" not in _pool or _pool["n"] % 200 == 0:
+    poolable = _pool.get("poolable", True)
+    if "win" not in _pool or not poolable or _pool["n"] % 200 == 0:
         rec = Recorder()
         new = FakeFullscreen(out_stream=rec, hide_cursor=hide)
-        if "win" in _pool:
+        if "poolable" not in _pool:
+            _pool["poolable"] = poolable = all(hasattr(new, k) for k in PRIVATE)
+        if "win" in _pool and poolable:
             old = reset(_pool["win"], hide)
-            keys = ("hide_cursor", "_last_lines_by_row", "_last_rendered_width", "_last_rendered_height")
-            assert set(vars(old)) - {"_size"} == set(vars(new)) and all(getattr(old, k) == getattr(new, k) for k in keys)
-            assert type(old.fullscreen_ctx) is type(new.fullscreen_ctx)
+            if not (set(vars(old)) - {"_size"} == set(vars(new)) and all(getattr(old, k) == getattr(new, k) for k in PRIVATE)):
+                _pool["poolable"] = poolable = False          # the reset is not faithful any more: stop pooling
         _pool["win"], _pool["rec"] = new, rec
+        if not poolable:
+            return new, rec
     _pool["rec"].take()
     return reset(_pool["win"], hide), _pool["rec"]
 
@@ -176,6 +185,24 @@ def canon(reply):
             steps.append(part)
         else:
             steps.append((tuple(termref.norm_ops(termref.dec_ops(f[0]))), tuple(sorted(termref.dec_term(f[1:]).items()))))
+    return tuple(steps)
+
+
+def canon_screen(reply):
+    """what the PROPERTY speaks about, per render: the screen (every cell with its formatting), the cursor (row, column,
+    no pending wrap) and the scrollback (never scrolls) - not which operations produced it"""
+    if not reply.startswith("ok "):
+        return reply
+    steps = []
+    for part in reply[3:].split(" # "):
+        f = part.split(" ")
+        if f[0] == "resized":
+            steps.append("resized")
+        elif len(f) != 6:
+            steps.append(part)
+        else:
+            t = termref.dec_term(f[1:])
+            steps.append((t["screen"], t["cursor"][:3], t["scrollback"]))
     return tuple(steps)
 
 
@@ -404,7 +431,7 @@ def cross_check_spec(ctx):
     def cn(reply):
         return tuple(sorted(termref.dec_term(reply[3:].split(" ")).items())) if reply.startswith("ok ") else reply
 
-    ctx.tie("termref-vs-Spec/Term.lean", cases, ln, impl, cn, cn)
+    ctx.tie("termref-vs-Spec/Term.lean", cases, ln, impl, cn, cn, impl=False)
     for c in cases:
         ctx.count(c, tag="termspec")
 
@@ -488,7 +515,17 @@ def check(ctx):
             outs[id(c)] = e
             return "raised %s: %s" % (type(e).__name__, e)
 
-    ctx.tie("C02/histories", cases, line, impl, canon, canon)
+    # property level: the screen, cursor and scrollback after every step of the history - the real output run through
+    # the reference terminal (tied to Spec/Term.lean above) against the model's operations run through Spec/Term.lean
+    replies = {}
+
+    def impl_once(c):
+        replies[id(c)] = impl(c)
+        return replies[id(c)]
+
+    ctx.tie("C02/screens", cases, line, impl_once, canon_screen, canon_screen)
+    # representation level: additionally WHICH operations were written (and cursor visibility / graphic state after them)
+    ctx.tie("C02/operations", cases, line, lambda c: replies[id(c)], canon, canon, level="representation")
     for c in cases:
         nsteps = len(c["steps"])
         ctx.count(c, nontrivial=nsteps > 1 or any(s[0] == "R" and s[2] for s in c["steps"]),
